@@ -1004,7 +1004,9 @@ func (t *txattrwalk) handle(cs *connState) message {
 				buf:  buf,
 			},
 			pathNode: ref.pathNode,
+			xattrOf:  ref,
 		}
+		ref.IncRef() // Held by newRef.xattrOf.
 		cs.InsertFID(t.newFID, newRef)
 		return nil
 	}); err != nil {
